@@ -75,7 +75,7 @@ class Stats:
         for x in self.viol:
             counts[x["key"]] = counts.get(x["key"], 0) + 1
             old = seen.get(x["key"])
-            if old is None or len(repr(x["input"])) < len(repr(old["input"])):
+            if old is None or _rank(x) < _rank(old):
                 seen[x["key"]] = x
         return {
             "evals": self.evals,
@@ -85,6 +85,11 @@ class Stats:
             "skips": self.skips,
             "calls": self.calls,
         }
+
+
+def _rank(x):
+    i = x["input"]
+    return (bool(i.get("prehash")), len(repr(i)))
 
 
 def _ids(t):
@@ -796,6 +801,10 @@ def _plan(tier):
 
 
 def run(tier, seed):
+    from sqlglot.dialects.dialect import Dialect
+
+    for _d in corpus.dialects():  # import every dialect module once, before the pool forks
+        Dialect.get_or_raise(_d or None)
     plan = _plan(tier)
     order = list(range(len(plan)))
     if seed:
@@ -815,7 +824,7 @@ def run(tier, seed):
             counts[k] = counts.get(k, 0) + v
         for x in r["viol"]:
             old = viol.get(x["key"])
-            if old is None or len(repr(x["input"])) < len(repr(old["input"])):
+            if old is None or _rank(x) < _rank(old):
                 viol[x["key"]] = x
     violations = []
     for k in sorted(viol):
